@@ -338,14 +338,11 @@ func ruleAsn1Ext(c *Ctx, r *Rep) {
 		}
 		for _, fn := range fns {
 			n := 0
-			for _, ci := range callsIn(fn) {
-				if calleeFullName(ci) != "encoding/asn1.Marshal" {
-					continue
-				}
+			for _, ms := range marshalSitesOf(c, fn) {
 				n++
-				t := marshalArgType(ci)
+				t := ms.arg.Type()
 				compareShape(c, r, t, cs.role, nil, map[string]bool{})
-				optionalIntZero(c, r, fn, ci, t)
+				optionalIntZero(c, r, fn, ms.ci, t)
 			}
 			r.Check(n == 1, "marshal-site|"+c.FuncKey(fn), c.FnPos(fn), "the constructor marshals one value of the extension's type", sprintf("%d", n))
 		}
